@@ -287,6 +287,13 @@ SHAPES = [
     ('x-u>x-l+x-m', plain(lambda t: el('x-u', el('x-l', []) + el('x-m', T(t))))),
     ('x-u>(x-l>x-b)+x-m>x-n', plain(lambda t: el('x-u', el('x-l', el('x-b', [])) + el('x-m', el('x-n', T(t)))))),
 ]
+# a placeholder in the place of an attribute NAME: the line is the name, with whatever punctuation it carries (`a.` is not "boolean a", `!b` is not "implied b")
+NAME_SHAPES = [
+    ('x-l[$#=v]*', implicit(lambda l, i: el('x-l', [], [[l, '"v"']]))),
+    ('x-u>x-l[$#="w" k=1]*>x-b', implicit(lambda l, i: el('x-l', el('x-b', []), [[l, '"w"'], ['k', '"1"']]), lambda inner: el('x-u', inner))),
+    ('x-l[d-$#=v]*', implicit(lambda l, i: el('x-l', [], [['d-' + l, '"v"']]))),
+]
+NAME_LINES = ['a', 'a.', '!b', 'c.d', 'k!', 'e.f.', '!g.', 'data-x', 'x:y', 'h..']
 LINES = ['a', '', '  b  ', 'ul>li*3', '$#', '${1}', 'item $', '*', '{x}', '[a=b]', ' ', 'x y z', 'é ü', 'a\\b', '(c)+d^e', '$$@-3', '"q"', "it's", 'a{b}c',
          '\\{', '}', '.cls#id', 'lorem10', 'a*', '$', 'p>{t}', '@', '100%', '1. first', '- second', '\t tab', 'x/', '!', 'a:b=c']
 
@@ -541,6 +548,8 @@ def run_shard(desc, ctx):
             else:
                 text = [''.join(rng.choice(ALPHA) for _ in range(rng.randint(1, 12))).replace('<', '') for _ in range(rng.randint(1, 4))]
             mon.wrap(shape, text, 'wrap')
+        for _ in range(desc['wrap'] // 10):
+            mon.wrap(rng.choice(NAME_SHAPES), [rng.choice(NAME_LINES) for _ in range(rng.randint(1, 4))], 'wrap:name-site')
     finally:
         pr.uninstall()
     for k2, v in pr.reach().items():
@@ -563,7 +572,7 @@ def replay(case, ctx):
             if act != case['expected']:
                 ctx.violation('text-not-verbatim', case, {'output': r[1][:200], 'actual': act})
     else:
-        shape = [s for s in SHAPES if s[0] == case['abbr']]
+        shape = [s for s in SHAPES + NAME_SHAPES if s[0] == case['abbr']]
         if shape:
             mon.wrap(shape[0], case['text'], 'replay')
 
